@@ -87,6 +87,24 @@ int main (int argc, char** argv)
       snprintf (what, 200, "inner (2^%d A, 2^%d B) = 2^%d inner (A, B), exactly", e, f, e + f); symx::expect_true (what, Minkowski::inner (As, Bs) == i0 * sab);
       Matrix<4,4,double> M = Minkowski::outer (As, Bs); bool ok = true; for (unsigned i=0; i<4; i++) for (unsigned j=0; j<4; j++) ok = ok && M[i][j] == M0[i][j] * sab;
       snprintf (what, 200, "outer (2^%d A, 2^%d B) = 2^%d outer (A, B), exactly", e, f, e + f); symx::expect_true (what, ok); }
+    // mixed element types (single with double precision, double with long double): the forms are evaluated in the
+    // promoted type whichever argument comes first -- exact dyadic data whose products need the wider type
+    { Stokes<float> Af (1.0f, 1.0f, 0.0f, 0.0f); Stokes<double> Bd (1.0 + std::ldexp (1.0, -30), 1.0, 0.0, 0.0);
+      symx::expect ("inner (single A, double B) keeps double precision", Minkowski::inner (Af, Bd), std::ldexp (1.0, -30), 1e-15);
+      symx::expect ("inner (double B, single A) keeps double precision", Minkowski::inner (Bd, Af), std::ldexp (1.0, -30), 1e-15);
+      Stokes<float> Hf (std::ldexp (1.0f, 100), 0.0f, 0.0f, 0.0f); Stokes<double> Hd (std::ldexp (1.0, 100), 0.0, 0.0, 0.0);
+      symx::expect_true ("inner (single 2^100, double 2^100) = 2^200 (no overflow in single precision)", Minkowski::inner (Hf, Hd) == std::ldexp (1.0, 200));
+      symx::expect_true ("inner (double 2^100, single 2^100) = 2^200", Minkowski::inner (Hd, Hf) == std::ldexp (1.0, 200));
+      Stokes<float> Cf (1.5f, 0.5f, -0.25f, 1.0f); Stokes<double> Dd (1.0 + std::ldexp (1.0, -40), 0.75, 0.5 + std::ldexp (1.0, -45), -0.125);
+      Stokes<double> Cd (1.5, 0.5, -0.25, 1.0);
+      Matrix<4,4,double> Mfd = Minkowski::outer (Cf, Dd), Mdd = Minkowski::outer (Cd, Dd), Mdf = Minkowski::outer (Dd, Cf), Mdd2 = Minkowski::outer (Dd, Cd);
+      for (unsigned i=0; i<4; i++) for (unsigned j=0; j<4; j++) { char w2[160];
+        snprintf (w2, 160, "outer (single A, double B)[%u][%u] = outer (double A, double B)", i, j); symx::expect (w2, Mfd[i][j], Mdd[i][j], 1e-15);
+        snprintf (w2, 160, "outer (double B, single A)[%u][%u] = outer (double B, double A)", i, j); symx::expect (w2, Mdf[i][j], Mdd2[i][j], 1e-15);
+        snprintf (w2, 160, "outer (single A, double B)^T = outer (double B, single A) at [%u][%u]", i, j); symx::expect (w2, Mfd[i][j], Mdf[j][i], 1e-15); }
+      Stokes<long double> Ll (1.0L + std::ldexp (1.0L, -60), 1.0L, 0.0L, 0.0L); Stokes<double> Ld (1.0, 1.0, 0.0, 0.0);
+      symx::expect_true ("inner (double A, long double B) keeps extended precision", Minkowski::inner (Ld, Ll) == std::ldexp (1.0L, -60));
+      symx::expect_true ("inner (long double B, double A) keeps extended precision", Minkowski::inner (Ll, Ld) == std::ldexp (1.0L, -60)); }
     const double vals[][4] = { {1e150, 1e-150, 3, -2}, {1, 1e-8, 1e-16, 0}, {1e-200, 1e-200, 0, 1e-200}, {5, -5, 0, 0}, {0, 0, 0, 0}, {2, 0, 0, 0} };
     for (auto& a : vals) for (auto& b : vals) { Stokes<double> P (a[0], a[1], a[2], a[3]), Q (b[0], b[1], b[2], b[3]); Matrix<4,4,double> M = Minkowski::outer (P, Q), N = Minkowski::outer (Q, P); char what[240];
       double in = a[0]*b[0] - a[1]*b[1] - a[2]*b[2] - a[3]*b[3];
